@@ -13,26 +13,21 @@ use vh::val::Val;
 
 fn builder(case: &Val, rec: &Rec) -> (log4rs::config::runtime::ConfigBuilder, Root) {
     let c = case.l();
-    let mut b = Config::builder();
-    for (i, a) in c[0].l().iter().enumerate() {
-        b = b.appender(Appender::builder().build(
-            a.str(),
-            Box::new(RecAppender { idx: i, fails: false, rec: rec.clone() }),
-        ));
-    }
-    let mut root = Root::builder();
-    for r in c[2].l() {
-        root = root.appender(r.str());
-    }
-    for l in c[3].l() {
-        let l = l.l();
-        let mut lb = Logger::builder().additive(l[3].b());
-        for r in l[2].l() {
-            lb = lb.appender(r.str());
-        }
-        b = b.logger(lb.build(l[0].str(), level_filter(l[1].n())));
-    }
-    (b, root.build(level_filter(c[1].n())))
+    let apps = c[0]
+        .l()
+        .iter()
+        .enumerate()
+        .map(|(i, a)| Appender::builder().build(a.str(), Box::new(RecAppender { idx: i, fails: false, rec: rec.clone() })))
+        .collect();
+    let loggers = c[3]
+        .l()
+        .iter()
+        .map(|l| {
+            let l = l.l();
+            (l[0].str(), level_filter(l[1].n()), l[3].b(), l[2].l().iter().map(|r| r.str()).collect())
+        })
+        .collect();
+    assemble(apps, loggers, level_filter(c[1].n()), c[2].l().iter().map(|r| r.str()).collect())
 }
 
 fn enc_config(cfg: &Config) -> Val {
